@@ -191,6 +191,12 @@ func (d *OrderedDaemon) BackgroundWorker(name string, handler WorkerFunc, order 
 	d.lock.Lock()
 	defer d.lock.Unlock()
 
+	// check again while holding the lock: the daemon could have been stopped in the meantime,
+	// and a worker added now would never be stopped by the running or finished shutdown.
+	if d.IsStopped() {
+		return ErrDaemonAlreadyStopped
+	}
+
 	exWorker, workerExistsAlready := d.workers[name]
 	if workerExistsAlready {
 		if !d.running.Load() {
@@ -257,6 +263,11 @@ func (d *OrderedDaemon) Start() {
 	d.lock.Lock()
 	defer d.lock.Unlock()
 
+	// check again while holding the lock: the daemon could have been stopped in the meantime.
+	if d.IsStopped() {
+		return
+	}
+
 	if !d.IsRunning() {
 		d.running.Store(true)
 		for name, worker := range d.workers {
@@ -311,7 +322,12 @@ func (d *OrderedDaemon) shutdown() {
 		d.logger.LogDebugf("Shutting down ...")
 	}
 
+	// the stopped flag is set while holding the lock, so that a concurrent BackgroundWorker or Start call
+	// either takes effect before the shutdown looks at the workers, or sees that the daemon was stopped.
+	d.lock.Lock()
 	d.stopped.Store(true)
+	d.lock.Unlock()
+
 	d.stoppedCtxCancel()
 	if !d.IsRunning() {
 		return
